@@ -12,6 +12,9 @@ FEATURES = [{'gen'}, {'rec'}, {'gen', 'rec'}, {'co'}, set(), {'gen', 'co'}, {'mu
 
 def run(tier, seed):
     res = e1common.run_property(PROP, MODULE, THEOREMS, tier, seed, 160, 30000, FEATURES, 'time', ticks=(0, 1, 7), extra_cases=[e1common.FIXED_RECURSION])
+    # threads sharing one profiler: times depend on the schedule, so only the hit counts are judged here
+    res2 = e1common.run_property(PROP, MODULE, THEOREMS, tier, seed + 1, 40, 3000, [{'gen'}, set(), {'rec'}], 'hits', threads=True, ticks=(0,))
+    e1common.merge_results(res, res2, 'threaded_part')
     res.assumptions.append('CLOCK_MONOTONIC is replaced by the shim: the real clock is not exercised (partial)')
     return res
 
